@@ -1,6 +1,6 @@
 (* C17 - Starving/DAG mutexes: exclusion, no lost wake-up, condition waits. Statements only. *)
 From Coq Require Import List Arith Bool ZArith.
-From Verif.C17_Sync Require Import Model Proofs ProofsDag ProofsWaits SmView ProofsProgress DagInv DagSteps DagLive.
+From Verif.C17_Sync Require Import Model Proofs ProofsDag ProofsWaits SmView ProofsProgress DagInv DagSteps DagLive ProofsTerm.
 Import ListNotations.
 
 (* ---------- StarvingMutex: any number of threads, arbitrary scripts (misuse included), every schedule ---------- *)
@@ -84,6 +84,19 @@ Proof.
   - vm_compute. repeat split; auto.
   - split; [|reflexivity]. intros t c. destruct t as [|[|[|[|[|t]]]]]; reflexivity.
 Qed.
+
+(* No livelock, and completion: every effective step strictly decreases (operations left, notifications owed, woken
+   threads) lexicographically, so - for any scripts, from any state - there is no infinite run of effective steps; hence,
+   with C17_lock_progress, from every reachable state of balanced scripts running enabled steps in any order ends, and
+   ends in the final state: every blocked Lock / RLock has been granted and released (a finishing continuation sch' exists,
+   and no continuation of effective steps can go on forever or stop anywhere else). Guard non-vacuity: see
+   C17_lock_progress_nonvacuous. *)
+Theorem C17_lock_terminates :
+  well_founded (fun s' s : sys => exists t c, step s t c = Some s') /\
+  (forall scripts sch, Forall balanced scripts ->
+     exists sch', let s := run (sch ++ sch') (init scripts) in
+                  stuck s /\ (forall t, finished s t) /\ rd (mx s) = [] /\ wr (mx s) = [] /\ pw (mx s) = 0).
+Proof. split; [exact lock_terminates|exact lock_completes]. Qed.
 
 (* Misuse: the wrong unlock panics and the lock state is exactly what it was (all schedules: a panicking step of the
    system leaves the mutex unchanged); Unlock of a mutex nobody holds does not panic and changes no lock state. *)
@@ -181,6 +194,17 @@ Theorem C17_dag_consumers : forall (scripts : list (list dop)) (sch : list (tid 
     (forall t, thr_core (ents s) (heap s) t (thf (thr s) t) (gof gs t)) /\
     (forall t, exists H', acq_seq (gH (gof gs t)) (gP (gof gs t)) = Some H' /\ dbal H' (dscr (thf (thr s) t)) = true).
 Proof. exact dag_consumers_all. Qed.
+
+(* The same for the DAGMutex system: (operations left, micro-operations left, notifications owed, woken threads) decreases
+   with every effective step - no infinite run of effective steps, for any scripts; for ordered balanced scripts every
+   reachable state can be run to the final state, and running enabled steps in any order ends exactly there. *)
+Theorem C17_dag_terminates :
+  well_founded (fun s' s : dag => exists t c, dstep s t c = Some s') /\
+  (forall scripts sch, Forall ordered_balanced scripts ->
+     exists sch', let s := drun (sch ++ sch') (dinit scripts) in
+                  (forall t c, dstep s t c = None) /\
+                  forall th, In th (thr s) -> cur th = None /\ todo th = [] /\ dscr th = []).
+Proof. split; [exact dag_terminates|exact dag_completes]. Qed.
 
 (* non-vacuity: the doc-comment scripts are ordered and balanced; a reachable state in which thread 2 (RLock(0,1)) is parked
    behind writer 0 on entity 0 with entity 1 registered by two consumers (hypothesis (b)); the final state of
@@ -292,6 +316,8 @@ Print Assumptions C17_lock_progress.
 Print Assumptions C17_dag_acyclic_abstract.
 Print Assumptions C17_dag_acyclic.
 Print Assumptions C17_dag_consumers.
+Print Assumptions C17_lock_terminates.
+Print Assumptions C17_dag_terminates.
 Print Assumptions C17_counter_waits.
 Print Assumptions C17_stack_waits.
 Print Assumptions C17_stack_wait_sound.
